@@ -233,9 +233,17 @@ def dot_graph_str(text):
     return graph_str([(u, lv) for u, (lv, _lab) in nodes.items()], edges)
 
 
+# extension points for vertical slices (parser, MDD, dump/load, ...):
+# EXT_OPS[op](impl, bdd, args) -> answer text for ops on an existing dd.bdd manager,
+# EXT_LINE_OPS[op](impl, mgr_id, args) -> answer text for ops that manage their own objects
+EXT_OPS = {}
+EXT_LINE_OPS = {}
+
+
 class Impl:
     def __init__(self):
         self.mgrs = {}
+        self.objs = {}      # other objects of extension slices, by kind
 
     def reset(self):
         # let managers die quietly (their `__del__` asserts on live references)
@@ -247,6 +255,7 @@ class Impl:
             except Exception:
                 pass
         self.mgrs = {}
+        self.objs = {}
 
     def run(self, line):
         """Return `(answer, schedule)`."""
@@ -271,6 +280,9 @@ class Impl:
             b = _bdd.BDD(levels)
             self.mgrs[mid] = b
             return '-'
+        h = EXT_LINE_OPS.get(op)
+        if h is not None:
+            return h(self, mid, a)
         if op == 'copy':
             u, dst = int(a[0]), int(a[1])
             r = _bdd.copy_bdd(u, self.mgrs[mid], self.mgrs[dst])
@@ -412,6 +424,9 @@ class Impl:
             return dot_graph_str(text)
         if op == 'state':
             return dump_state(b)
+        h = EXT_OPS.get(op)
+        if h is not None:
+            return h(self, b, a)
         raise RuntimeError('unknown op ' + op)
 
 
